@@ -191,6 +191,25 @@ func (v *FnV) sp(st *State, e *SExpr, sc *Scope) Value {
 		}
 		q := st.fork()
 		q.quiet = true
+		if len(e.Vars) == 1 && t != nil && isIntType(t) {
+			// "forall k :: ... s[k] ..." is encoded over the ABSOLUTE position a = off(s)+k, so that
+			// the instantiation pattern is (select arr a) without arithmetic inside it.
+			if be := uniformIndexBase(e.Args[0], e.Vars[0]); be != nil {
+				if bv, err := v.spec(q, be, sc); err == nil && bv.T != nil {
+					off := ""
+					if isString(bv.T) {
+						off = sx("soff", bv.S)
+					} else if v.c.sortOf(bv.T) == sortSlice {
+						off = sx("sloff", bv.S)
+					}
+					if off != "" {
+						sym := e.Vars[0] + "!q"
+						vars[e.Vars[0]] = Value{T: t, S: "(- " + sym + " " + off + ")"}
+						ranges = nil
+					}
+				}
+			}
+		}
 		body := v.spBool(q, e.Args[0], sc.with(vars))
 		if e.Op == "forall" {
 			return Value{T: tBool, S: fmt.Sprintf("(forall (%s) %s)", strings.Join(binders, " "), sImp(sAnd(ranges...), body))}
@@ -497,12 +516,29 @@ func (v *FnV) specIndex(st *State, base, idx Value) Value {
 	if base.T == nil {
 		sfail("index of untyped value")
 	}
+	// an index of the form (- a OFF) where OFF is this very sequence's offset denotes absolute position a
+	absPos := func(off string) (string, bool) {
+		suffix := " " + off + ")"
+		if strings.HasPrefix(idx.S, "(- ") && strings.HasSuffix(idx.S, suffix) {
+			a := idx.S[3 : len(idx.S)-len(suffix)]
+			if strings.HasSuffix(a, "!q") && !strings.ContainsAny(a, " ()") {
+				return a, true
+			}
+		}
+		return "", false
+	}
 	if isString(base.T) {
+		if a, ok := absPos(sx("soff", base.S)); ok {
+			return Value{T: tByte, S: sSelect(sx("sbase", base.S), a)}
+		}
 		return Value{T: tByte, S: sx("sat", base.S, idx.S)}
 	}
 	switch u := base.T.Underlying().(type) {
 	case *types.Slice:
 		_, h := v.elemHeap(st, u.Elem())
+		if a, ok := absPos(sx("sloff", base.S)); ok {
+			return Value{T: u.Elem(), S: sSelect(sSelect(h, sx("sref", base.S)), a)}
+		}
 		return Value{T: u.Elem(), S: sSelect(sSelect(h, sx("sref", base.S)), sAdd(sx("sloff", base.S), idx.S))}
 	case *types.Array:
 		return Value{T: u.Elem(), S: sSelect(base.S, idx.S)}
